@@ -91,6 +91,20 @@ def catchAt (frame : Req) (st : Nat) (r' : Req) : Req := withError st (newObject
 def serverCatch (req : Req) (st : Nat) (r' : Req) : Req :=
   withError st (newObject req.uri { r' with path := req.path })
 
+/-- `strip_path_prefix "/a"` on the path alphabet `/ /a /a/b /b /c /a/c` (0…5): `/a/b ↦ /b`,
+    `/a/c ↦ /c`, `/a ↦ ""` (index 6: the empty path, which no request has and no matcher lists),
+    everything else unchanged — except that the handler first CLEANS the path and `path.Clean("")`
+    is `.` (index 7): stripping an already empty path yields `.` -/
+def stripPath : Nat → Nat
+  | 1 => 6
+  | 2 => 3
+  | 5 => 4
+  | 6 => 7
+  | p => p
+
+/-- `r.URL.RequestURI()`: the empty path is written `/` in the request line -/
+def requestLineOf (p : Nat) : Nat := if p = 6 then 0 else p
+
 /-- where a real `error` / `static_response` handler takes its status from (`status_code`, a
     `WeakString` expanded by the replacer and parsed with `strconv.Atoi`) -/
 inductive Src where
@@ -221,6 +235,8 @@ inductive Handler where
   | respond (id st : Nat)
   | rewrite (id p : Nat)
   | fail (id st : Nat)
+  | strip                 -- the real `rewrite` handler with `strip_path_prefix: "/a"` (no probe);
+                          -- this is what the Caddyfile's `handle_path /a/*` puts in front of its body
   | raise (src : Src)     -- the real `error` handler (no probe: leaves no trace event)
   | answer (src : Src)    -- the real `static_response` handler (no probe)
   | invoke (name : Nat)   -- the real `invoke` handler; in a tree handed to `run*` it stands for a
@@ -281,6 +297,7 @@ def runHandler : Handler → K → K
   | .pass id, k => fun r t => k r (t ++ [ev id r])
   | .respond id st, _ => fun r t => .done (t ++ [ev id r]) (some st)
   | .rewrite id p, k => fun r t => k { r with path := p, uri := p } (t ++ [ev id r])
+  | .strip, k => fun r t => k { r with path := stripPath r.path, uri := requestLineOf (stripPath r.path) } t
   | .fail id st, _ => fun r t => .err (t ++ [ev id r]) st r
   | .raise src, _ => fun r t => .err t (raiseStatus src r) r
   | .answer src, k => fun r t =>
@@ -360,6 +377,7 @@ def inlineH (env : List Route) : Handler → Handler
   | .pass id => .pass id
   | .respond id st => .respond id st
   | .rewrite id p => .rewrite id p
+  | .strip => .strip
   | .fail id st => .fail id st
   | .raise src => .raise src
   | .answer src => .answer src
